@@ -18,7 +18,8 @@ SHARDS = {'quick': 16, 'thorough': 64}
 TIMEOUT = {'quick': 1500, 'thorough': 7200}
 MUST_HIT = ['EarlierObject.rechecked', 'Mapping.whole-model', 'Mapping.component', 'Mapping.derived-attributes', 'Mapping.after-edit',
             'Mapping.simple', 'Mapping.linked', 'Mapping.subsuper', 'Mapping.reflexive', 'Schema.roundtrip',
-            'Mapping.real-model-edit', 'Mapping.unsupported-attribute-type', 'Mapping.identifier-of-derived-attribute']
+            'Mapping.real-model-edit', 'Mapping.unsupported-attribute-type', 'Mapping.identifier-of-derived-attribute',
+            'Mapping.subtypes-on-compound-identifier']
 MUST_REACH = ['bridgepoint/ooaofooa.py:mk_class', 'bridgepoint/ooaofooa.py:mk_simple_association',
               'bridgepoint/ooaofooa.py:mk_linked_association', 'bridgepoint/ooaofooa.py:mk_subsuper_association',
               'bridgepoint/ooaofooa.py:_get_related_attributes', 'bridgepoint/ooaofooa.py:_get_data_type_name',
@@ -149,13 +150,23 @@ def random_diagram(rng, derived_keys=False, extras=False):
                 continue
             chosen = rng.sample(subs, min(len(subs), rng.randint(1, 2)))
             sub_list = []
+            # the subtypes refer to one of the supertype's identifiers, which may consist of several attributes
+            usable = [n for n, names in enumerate(sup.identifiers)
+                      if names and all(sup.attr(x).derived is None for x in names)]
+            key_n = rng.choice(usable) if usable and rng.random() < 0.5 else 0
+            keys = sup.identifiers[key_n]
+            if len(keys) > 1:
+                STATS['subtypes-on-compound-identifier'] = STATS.get('subtypes-on-compound-identifier', 0) + 1
             for s in chosen:
-                an = 's%d_%s_Id' % (numb, s.kl)
-                s.attrs.insert(1, bp.Attr(an, None))
-                sub_list.append((s.kl, [(an, 'Id')]))
+                pairs = []
+                for k in keys:
+                    an = 's%d_%s_%s' % (numb, s.kl, k)
+                    s.attrs.insert(rng.randint(1, len(s.attrs)) if len(keys) > 1 else 1, bp.Attr(an, None))
+                    pairs.append((an, k))
+                sub_list.append((s.kl, pairs))
                 # the referential attribute may itself be referred to (chains of referentials)
-                s.identifiers.append([an])
-            d.rels.append(bp.SubSuper(numb, sup.kl, sub_list, sup.where))
+                s.identifiers.append([an for an, _ in pairs])
+            d.rels.append(bp.SubSuper(numb, sup.kl, sub_list, sup.where, key_n))
     if extras:
         # what component extraction must leave out: attributes of data types that are no core type
         # (the state attribute, instance references, void), and - unless derived attributes are asked
